@@ -116,23 +116,11 @@ def bits_f32(u):
 
 
 def grid_threshold_witness(binp, k):
-    """The witness of C04_grid_maximise_refuted as a `vh c09 one` case: one column minmax(0px, 1px), one row 50px, container 1/16 x 50,
-    one 0 x 0 item at (1, 1); everything multiplied by k.  Returns the size of the column track (float) or None."""
-    b = f32_bits
-    c = [b(0.0625 * k), b(50.0 * k)] + [0] * 8 + [0, 0, 0, 0] + [0, 0]
-    c += [1, 0, 0, b(0.0), 0, b(1.0 * k)]            # columns: one Single entry, min = 0px, max = k px
-    c += [1, 0, 0, b(50.0 * k), 0, b(50.0 * k)]      # rows: 50k px
-    c += [0, 0] + [1, 1, 1, 0, 0]                    # no auto tracks; one item on column line 1 / row line 1, size 0 x 0
-    rc, out = vh(binp, ['c09', 'one'] + c, timeout=60)
-    try:
-        _, impl = parse_cr(out)
-        r = impl[0]
-        # R = neg, explicit, pos counts of the columns, number of sizes, the sizes ...: [0, 1, 0, 1, <bits>, ...]
-        if r[:4] != [0, 1, 0, 1]:
-            return None
-        return bits_f32(r[4])
-    except (RuntimeError, IndexError):
-        return None
+    """The witness of C04_grid_maximise_refuted on the implementation (`vh c04 gridwitness k`): one column minmax(0px, 1px), one row
+    50px, container 1/16 x 50, one empty item at (1, 1); everything multiplied by k.  Returns the size of the column track or None."""
+    rc, out = vh(binp, ['c04', 'gridwitness', repr(float(k))], timeout=60)
+    m = re.search(r'GRIDWITNESS (\d+)', out)
+    return bits_f32(int(m.group(1))) if m else None
 
 
 def parse_fail(line):
@@ -200,8 +188,8 @@ def run(rep, tier, seed, replay=None):
                                           'From TV Require Import Model.BlockRun.', 'run_case2',
                                           'Model.Block.block_inflow with recorded child outputs (oracle values) over F32 vs block containers of nested trees',
                                           skip_model=[-1])
-        gc, gbad = kernel_tie_container(rep, binp, 'grid', ['c09', 'cases', kseed, 2000 if big else 150], 'Model/GridTracksRun.vo',
-                                        'From TV Require Import Model.GridTracksRun.', 'run_case',
+        gc, gbad = kernel_tie_container(rep, binp, 'grid', ['c09', 'cases', kseed, 2000 if big else 150], 'Model/GridIntrinsicRun.vo',
+                                        'From TV Require Import Model.GridIntrinsicRun.', 'run_case2',
                                         'Model.GridTracks (track initialisation, track sizing, alignment) over F32 vs DetailedGridInfo', batch=200)
         rep.cov['kernel_tie'].update({'flex_cases': len(fc), 'flex_disagreements': len(fbad), 'block_cases': len(bc),
                                       'block_disagreements': len(bbad), 'block_nested_containers': len(b2c),
